@@ -18,12 +18,12 @@ SEND = 'SyncObj.__sendAppendEntries'
 
 def getTransmissionData_ext(I, selfv, args, kwargs):
     """Serializer.getTransmissionData (contract proved in unit serializer.getTransmissionData): None while a
-    dump is being written or on failure to open it, False on a read error, else (data, isFirst, isLast)"""
+    dump is being written, on failure to open it or on a read error, else (data, isFirst, isLast)"""
     ctx = I.ctx
     if ctx.decide(FreshBool('noTransmission'), 'transmission-none'):
         return None
     if ctx.decide(FreshBool('transmissionReadError'), 'transmission-read-error'):
-        return False
+        return None
     last = FreshBool('isLastChunk')
     ctx.ghost['chunks'] = ctx.glist('chunks') + [last]
     return ('chunk-bytes', FreshBool('isFirstChunk'), last)
